@@ -177,6 +177,17 @@ func fromTdxAttestationProto(at *tpb.QuoteV4) string {
 	return extracttdx.GCETcbObjectName(mrtd)
 }
 
+// tdxQuoteToProto decodes a raw TDX quote. The quote is untrusted input, so a decoder that fails by
+// panicking on inconsistent size fields is reported as an error.
+func tdxQuoteToProto(quote []byte) (result any, err error) {
+	defer func() {
+		if r := recover(); r != nil {
+			result, err = nil, fmt.Errorf("malformed TDX quote: %v", r)
+		}
+	}()
+	return tabi.QuoteToProto(quote)
+}
+
 // Attestation will try to deserialize a given attestation in any of the supported formats and
 // return it packaged in the most general format.
 func Attestation(quote []byte) (*tpmpb.Attestation, error) {
@@ -231,7 +242,7 @@ func Attestation(quote []byte) (*tpmpb.Attestation, error) {
 	}
 
 	// Attempt to decode as a raw TDX quote.
-	if tdxquote, err := tabi.QuoteToProto(quote); err == nil {
+	if tdxquote, err := tdxQuoteToProto(quote); err == nil {
 		switch tq := tdxquote.(type) {
 		case *tpb.QuoteV4:
 			tpmat.TeeAttestation = &tpmpb.Attestation_TdxAttestation{TdxAttestation: tq}
